@@ -118,9 +118,12 @@ class OidWorld:
     def enabled(self):
         ops = [('new_oid',), ('store-issued',), ('abort-new',)]
         ops += [('store', v) for v in EXPLICIT]
+        if self.kind in ('F', 'M'):
+            ops += [('store-alloc-inside', v) for v in EXPLICIT[1:3]]
         if self.kind == 'F':
             ops += [('restore', v) for v in EXPLICIT[1:4]]
-            ops += [('reopen',)]
+            ops += [('reopen',), ('crash-reopen', 'index'),
+                    ('crash-reopen', 'noindex')]
         if self.stored:
             ops.append(('pack',))
         if self.kind in ('DMM', 'DFM'):
@@ -189,6 +192,32 @@ class OidWorld:
                 serial = self.stored.get(oid, Z64)
             r = self._commit(s, [(oid, serial)])
             return 'stored' if not isinstance(r, Exc) else 'store-' + r.name
+        if k == 'store-alloc-inside':
+            # an explicitly chosen id is stored, and before that transaction
+            # finishes somebody asks for a new id: the stored one is taken
+            from mc import hclasses
+            oid = p64(op[1])
+            serial = self.stored.get(oid, Z64)
+            env.CLOCK.now += 1
+            t = world.TMD()
+            r = call(lambda: (s.tpc_begin(t), s.store(
+                oid, serial, hclasses.mkrec('P', 6), '', t)))
+            if isinstance(r, Exc):
+                call(s.tpc_abort, t)
+                return 'store-' + r.name
+            got = call(s.new_oid)
+            if got == oid:
+                self.violations.append(('unique', '%s:new_oid-inside-'
+                                        'transaction:stored-there' %
+                                        self.kind, dict(oid=oid)))
+            elif not isinstance(got, Exc):
+                self.check_new(got, 'new_oid')
+            r = call(lambda: (s.tpc_vote(t), s.tpc_finish(t)))
+            if isinstance(r, Exc):
+                call(s.tpc_abort, t)
+                return 'store-' + r.name
+            self.stored[oid] = r[1]
+            return 'stored'
         if k == 'store-aimed':
             # store exactly the id the demo storage would try next
             oid = p64(getattr(s, '_next_oid', 77))
@@ -229,6 +258,27 @@ class OidWorld:
             self.storage = FS(self.path)
             self.issued = set()     # a new session
             return 'reopen'
+        if k == 'crash-reopen':
+            # the process dies between vote and finish (with or without a
+            # saved index), the next session finds the unfinished tail
+            from mc import hclasses
+            env.CLOCK.now += 1
+            t = world.TMD()
+            r = call(lambda: (s.tpc_begin(t), s.store(
+                s.new_oid(), Z64, hclasses.mkrec('P', 5), '', t),
+                s.tpc_vote(t)))
+            import shutil
+            crashed = self.path + '.crashed'
+            shutil.copyfile(self.path, crashed)
+            call(s.tpc_abort, t)
+            s.close()
+            os.replace(crashed, self.path)
+            if op[1] == 'noindex' and os.path.exists(self.path + '.index'):
+                os.remove(self.path + '.index')
+            FS = env.mod('ZODB.FileStorage.FileStorage').FileStorage
+            self.storage = FS(self.path)
+            self.issued = set()     # a new session
+            return 'crash-reopen'
         if k == 'dbadd':
             return self.dbadd()
         raise ValueError(op)
